@@ -2,8 +2,7 @@ SPEC = {
     "id": "C11",
     "coq_props": ["Properties/C11.v", "Corr/C11.v"],
     "module": "MS.Properties.C11",
-    "theorems": ["C11_range", "C11_fixed", "C11_variable", "C11_whole", "C11_plan", "C11_trim", "C11_trim_outside_guard",
-                 "C11_refuted", "C11_trim_refuted"],
+    "theorems": ["C11_range", "C11_fixed", "C11_variable", "C11_whole", "C11_plan", "C11_trim"],
     "corr_require": "Require Import MS.Corr.C11.",
     "agrees": "C11.agrees",
     "in_domain": "C11.in_domain",
@@ -37,9 +36,8 @@ SPEC = {
     "level": "proof",
     "level_text": "Coq theorem C11_range: for EVERY well-formed file state (any queryable timeframe, fixed or variable records, any year files, "
                   "slots and records) and ALL nanosecond bounds (inside intervals, on edges, across years, empty, inverted) ExecuteQuery "
-                  "returns exactly the in-range rows of the unrestricted result in order — for variable buckets inside the guard "
-                  "no-candidate-le-end; C11_refuted / C11_trim_refuted exhibit the defect (rows after `end` returned), "
-                  "C11_trim_outside_guard characterises it exactly. Model tied to the code by translation of constants/tables and by "
+                  "returns exactly the in-range rows of the unrestricted result in order (finding no-candidate-le-end fixed in /repo 75bdceb: "
+                  "the guard is gone, the former witnesses are regression cases; C11_trim: trimResultsToRange = range filter, unguarded). Model tied to the code by translation of constants/tables and by "
                   "differential in-Coq evaluation on every run (pure trim function, time functions, end-to-end queries).",
     "level_note": "No axioms. Trusted: Coq kernel/VM, gen translator, harness (incl. raw file-state extraction). Modelled not verified: "
                   "scanner.go NewIOPlan/packingReader/trimResultsToRange/trimResultsToLimit, readvariable.go buffer arithmetic, planner.go "
